@@ -1,10 +1,17 @@
 #!/bin/bash
 # MANIFEST.setup_cmd: regenerate Gen/*.v from /repo and build the whole Coq project (full .vo build).
-set -e
+# -k: one property's broken proof must not keep the others from building; each check rebuilds
+# (and fails closed on) exactly the files its Props/<ID>.v depends on.
 HERE="$(cd "$(dirname "$0")" && pwd)"
 export PYTHONHASHSEED=0 PYTHONDONTWRITEBYTECODE=1 PYTHONPATH="${VERIF_REPO:-/repo}"
-cd "$HERE"
-/venv/bin/python harness/gen_all.py
-cd coq
-coq_makefile -f _CoqProject -o Makefile >/dev/null
-timeout 3000 make -j16
+cd "$HERE" || exit 1
+mkdir -p .work evidence
+/venv/bin/python harness/gen_all.py || exit 1
+cd coq || exit 1
+coq_makefile -f _CoqProject -o Makefile >/dev/null || exit 1
+timeout 3000 make -k -j16 >"$HERE/.work/setup_build.log" 2>&1
+rc=$?
+tail -5 "$HERE/.work/setup_build.log"
+test -f Lib/Base.vo || exit 1
+echo "setup: make exit $rc (see .work/setup_build.log)"
+exit 0
